@@ -75,8 +75,13 @@ def sweep(ctx, n):
                 kw = dict(vertices=nps.uniform(-1, 1, (4, 3)), current=1.0)
                 obj = magpy.current.Polyline(**kw)
             obj.position, obj.orientation = pos, ori
-            unit = rng.choice(["m", "mm", "km", "cm"])
-            f = {"m": 1.0, "mm": 1e3, "km": 1e-3, "cm": 1e2}[unit]
+            # every SI prefix the documentation lists for lengths (the table is written out here, not read from the library):
+            # the drawn coordinates are the lengths in metres divided by the announced unit — 'Mm' is mega, 'mm' is milli
+            SI = {"ym": -24, "zm": -21, "am": -18, "fm": -15, "pm": -12, "nm": -9, "µm": -6, "mm": -3, "cm": -2, "dm": -1, "m": 0, "km": 3, "Mm": 6,
+                  "Gm": 9, "Tm": 12, "Pm": 15, "Em": 18, "Zm": 21, "Ym": 24}
+            unit = rng.choice(["m", "mm", "km", "cm"]) if rng.random() < 0.4 else sorted(SI)[(i + rng.randrange(2)) % len(SI)]
+            f = 10.0 ** (-SI[unit])
+            kinds["unit:" + unit] = kinds.get("unit:" + unit, 0) + 1
             inner = rng.random() < 0.4
             top = magpy.Collection(obj, position=(0, 0, 0)) if inner else obj
             before = snap_obj(obj)
